@@ -46,8 +46,16 @@ var initAllow = map[string]bool{
 	"io/fs": false,
 }
 
+var initAllowed = map[string]bool{
+	"internal/strconv": true, "internal/itoa": true, "internal/stringslite": true, "internal/byteorder": true,
+	"net/url": true, "path/filepath": false, "io/fs": true, "bufio": true, "time": false,
+}
+
 func skipInit(path string) bool {
 	if strings.HasPrefix(path, "github.com/glyphlang/glyph") {
+		return false
+	}
+	if initAllowed[path] {
 		return false
 	}
 	for _, p := range noInitPrefixes {
@@ -272,6 +280,11 @@ func init() {
 
 		// ---- unsafe-using bits of strings/bytes ---------------------------
 		"(*strings.Builder).String": func(fr *frame, a []value) value {
+			for _, e := range builderBuf(a[0]) {
+				if _, isM := e.(opaqueMark); isM {
+					return fr.i.newOpaque("Builder")
+				}
+			}
 			return mkstr(append([]value(nil), builderBuf(a[0])...))
 		},
 		"(*strings.Builder).Len":  func(fr *frame, a []value) value { return len(builderBuf(a[0])) },
@@ -279,9 +292,9 @@ func init() {
 		"(*strings.Builder).Reset": func(fr *frame, a []value) value { builderSet(fr, a[0], nil); return nil },
 		"(*strings.Builder).Grow": nop,
 		"(*strings.Builder).WriteString": func(fr *frame, a []value) value {
-			if o, ok := a[1].(*opaqueStr); ok {
-				_ = o
-				panic(engineErr{"UNSUPPORTED writing an opaque string into a strings.Builder"})
+			if _, ok := a[1].(*opaqueStr); ok {
+				builderSet(fr, a[0], append(builderBuf(a[0]), value(opaqueMark{})))
+				return tuple{1, iface{}}
 			}
 			b := bytesOfStr(a[1])
 			builderSet(fr, a[0], append(builderBuf(a[0]), b...))
@@ -431,6 +444,14 @@ func init() {
 			}
 			// symbolic-aware join
 			var out []value
+			for _, e := range a[0].([]value) {
+				if _, isO := e.(*opaqueStr); isO {
+					return fr.i.newOpaque("Join")
+				}
+			}
+			if _, isO := a[1].(*opaqueStr); isO {
+				return fr.i.newOpaque("Join")
+			}
 			sep := bytesOfStr(a[1])
 			for k, e := range a[0].([]value) {
 				if k > 0 {
@@ -923,3 +944,65 @@ func init() {
 		}
 	}
 }
+
+func (i *interpreter) freshRand(fr *frame, name string, so Sort) *Term {
+	if i.path == nil {
+		return i.ts.BV(4, so.w)
+	}
+	k := len(i.path.inputs)
+	t := i.ts.Var(fmt.Sprintf("rnd%d_%s", k, name), so)
+	i.path.inputs = append(i.path.inputs, inputRec{name: name, kind: "clock-internal", term: t})
+	return t
+}
+
+func init() {
+	bounded := func(fr *frame, n value, w int, name string) value {
+		i := fr.i
+		t := i.freshRand(fr, name, bvSort(w))
+		if i.path != nil {
+			i.path.addPC(i.ts.bvCmp("bvslt", t, i.termOf(n)))
+			i.path.addPC(i.ts.bvCmp("bvsle", i.ts.BV(0, w), t))
+		}
+		return &sym{t}
+	}
+	posCheck := func(fr *frame, n value, what string) {
+		if fr.cond(symBinopLE(fr, n)) {
+			stringPanic(fr, "invalid argument to "+what)
+		}
+	}
+	externals["math/rand.Int63n"] = func(fr *frame, a []value) value { posCheck(fr, a[0], "Int63n"); return bounded(fr, a[0], 64, "rand.Int63n") }
+	externals["math/rand.Intn"] = func(fr *frame, a []value) value { posCheck(fr, a[0], "Intn"); return bounded(fr, a[0], 64, "rand.Intn") }
+	externals["math/rand.Int63"] = func(fr *frame, a []value) value {
+		return &sym{fr.i.ts.bvBin("bvlshr", fr.i.freshRand(fr, "rand.Int63", bvSort(64)), fr.i.ts.BV(1, 64))}
+	}
+	externals["math/rand.Int"] = externals["math/rand.Int63"]
+	externals["math/rand.Seed"] = nop
+	externals["github.com/google/uuid.NewString"] = func(fr *frame, a []value) value { return fr.i.newOpaque("uuid") }
+	externals["github.com/google/uuid.New"] = func(fr *frame, a []value) value {
+		arr := make(array, 16)
+		for k := range arr {
+			arr[k] = uint8(k + 1)
+		}
+		return arr
+	}
+	externals["(github.com/google/uuid.UUID).String"] = func(fr *frame, a []value) value { return fr.i.newOpaque("uuid") }
+	externals["internal/godebug.New"] = func(fr *frame, a []value) value {
+		t := fr.i.namedType("internal/godebug", "Setting")
+		var cell value = zero(t)
+		return &cell
+	}
+	externals["(*internal/godebug.Setting).Value"] = func(fr *frame, a []value) value { return "" }
+	externals["(*internal/godebug.Setting).IncNonDefault"] = nop
+	externals["(*internal/godebug.Setting).Name"] = func(fr *frame, a []value) value { return "" }
+}
+
+// symBinopLE: n <= 0 for an int-typed value
+func symBinopLE(fr *frame, n value) value {
+	if s, ok := n.(*sym); ok {
+		return boolVal(fr.i.ts.bvCmp("bvsle", s.t, fr.i.ts.BV(0, s.t.sort.w)))
+	}
+	return asInt64(n) <= 0
+}
+
+// opaqueMark inside a strings.Builder buffer: an opaque string was written.
+type opaqueMark struct{}
